@@ -4,6 +4,8 @@ import (
 	"io"
 	"log/slog"
 
+	clientv3 "go.etcd.io/etcd/client/v3"
+
 	"github.com/KafScale/platform/pkg/metadata"
 	"github.com/KafScale/platform/pkg/protocol"
 )
@@ -26,8 +28,9 @@ func VsymC19_Leases() {
 	tps := []vsymTP{{"t0", 0}, {"t0", 1}, {"t1", 0}}
 	state := make([]int, len(tps))
 	failKey := ""
+	var oldLease clientv3.LeaseID
 	for i, tp := range tps {
-		state[i] = vsym_Choose("lease-state", 4)
+		state[i] = vsym_Choose("lease-state", 5)
 		key := metadata.PartitionLeasePrefix() + "/" + tp.topic + "/" + string(rune('0'+tp.part))
 		switch state[i] {
 		case 1: // an earlier produce of this broker acquired it
@@ -37,6 +40,13 @@ func VsymC19_Leases() {
 			e.put(key, []byte("2"), 0)
 		case 3: // etcd fails on this key's transaction
 			failKey = key
+		case 4: // the key names this broker, written by its previous incarnation under a lease that is still alive
+			if oldLease == 0 {
+				e.nextID++
+				oldLease = clientv3.LeaseID(1000 + e.nextID)
+				e.leases[oldLease] = &vsymEtcdLease{id: oldLease, alive: true}
+			}
+			e.put(key, []byte("1"), oldLease)
 		}
 	}
 	if failKey != "" {
@@ -81,6 +91,36 @@ func VsymC19_Leases() {
 	}
 	if refused == len(tps) {
 		vsym_Assert(len(b.s3.writes) == writesBefore, "C19/no-s3-write-when-every-partition-is-refused")
+	}
+	if oldLease == 0 {
+		return
+	}
+	// later the previous incarnation's lease runs out: etcd drops whatever keys still hang on it,
+	// broker 2 takes any partition that became free, and this broker produces again
+	e.failNext = nil
+	e.expire(oldLease)
+	var again []vsymTP
+	for i, tp := range tps {
+		if state[i] != 4 {
+			continue
+		}
+		key := metadata.PartitionLeasePrefix() + "/" + tp.topic + "/" + string(rune('0'+tp.part))
+		if _, found := e.data[key]; !found {
+			e.put(key, []byte("2"), 0)
+		}
+		again = append(again, tp)
+	}
+	codes2 := b.vsymProduce(vsymProduceReq(acks, again, []byte{7}))
+	vsym_Reach("produced-after-old-lease-ended")
+	for _, tp := range again {
+		key := metadata.PartitionLeasePrefix() + "/" + tp.topic + "/" + string(rune('0'+tp.part))
+		owner := ""
+		if en, found := e.data[key]; found {
+			owner = string(en.value)
+		}
+		if codes2[tp] == 0 {
+			vsym_Assert(owner == "1", "C19/acknowledged-only-while-holding-the-lease")
+		}
 	}
 }
 
